@@ -501,7 +501,10 @@ def run(ctx):
         for d in docs:
             # clear_incompatible called directly on any node and any type (the operation is public; set_block_type only
             # ever calls it on textblocks): tied like the other planners, and through `retypedChildren`
-            starts = gen.node_starts(d)
+            # (addressed at a *text* node the operation works at `pos + 1`, one unit into the text: where that falls between the
+            # halves of a surrogate pair the request is outside the pair-alignment guard of the model — code and model both
+            # refuse it, but not necessarily with the same exception first — and is left out)
+            starts = [p for p in gen.node_starts(d) if gen.pair_aligned(d, p + 1)]
             for _ in range(ctx.budget(3, 6)):
                 if not starts:
                     break
@@ -520,6 +523,8 @@ def run(ctx):
                 st, val, added = ops.run_op(tr, thunk)
                 fit_log = list(_FIT_LOG)
                 replay = {"schema": info.name, "doc": d.to_json(), **ops.describe(name, args)}
+                if info.name == "random":
+                    replay["_sid"] = info.lean_id     # lets a mismatch found after the batch name its schema (core.Ctx.mismatch)
                 ctx.case([name, info.name, d.to_json(), ops.describe(name, args)["args"]], nontrivial=added > 0,
                          sample={"op": name, "schema": info.name, "args": ops.describe(name, args)["args"], "outcome": st, "steps": added})
                 ctx.count(f"{name}:{st}")
